@@ -549,6 +549,11 @@ func (c *Ctx) xdecrypt(k xKey, ls []xLayer, expect []byte, tag string) {
 		orc = "key=xmlenc-roundtrip:" + tag + " expected the plaintext back, got " + impl
 	} else if c.mustRefuse != "" && strings.HasPrefix(impl, "ok") {
 		orc = c.mustRefuse
+	} else if strings.HasPrefix(tag, "gcm-t") || tag == "gcm-extended" {
+		// "for AES-GCM any modification of the cipher value is rejected": these cases are modified values of a valid one
+		if strings.HasPrefix(impl, "ok") {
+			orc = "key=gcm-modified-accepted:" + tag + " a modified AES-GCM cipher value (" + tag + ") was decrypted: " + impl
+		}
 	}
 	// an RSA-wrapped key whose embedded certificate is not the supplied key's must be refused, whatever the ciphertext
 	if orc == "" && k.kind == "r" && strings.HasPrefix(impl, "ok") {
